@@ -30,8 +30,13 @@ def native_runs(n):
         def one(k):
             outs = []
             for bits in ('0', '1'):
-                p = subprocess.run([f'{d}/native', '0/1', '6', 'single', str(k), bits], capture_output=True, text=True, timeout=60, cwd=d)
-                died = 'panic: boom' in p.stderr
+                # the launched goroutine gets 300 ms to run (rt.Wait); on a loaded machine it may not be scheduled in
+                # time, so a surviving run is repeated: one crashing run proves that the cell can crash
+                for attempt in range(4):
+                    p = subprocess.run([f'{d}/native', '0/1', '6', 'single', str(k), bits], capture_output=True, text=True, timeout=120, cwd=d)
+                    died = 'panic: boom' in p.stderr
+                    if died:
+                        break
                 top = ''
                 if died:
                     m = re.search(r'goroutine \d+ \[running\]:\n(?:.*\n)*?zsubj/q\d+\.([^\n(]+(?:\([^)]*\))?[^\n(]*)\(', p.stderr)
